@@ -2,7 +2,6 @@ package backupfs
 
 import (
 	"io/fs"
-	"strings"
 )
 
 var _ File = (*prefixFile)(nil)
@@ -16,8 +15,8 @@ func newPrefixFile(f File, filePath, prefix string) File {
 
 	if filePath == prefix {
 		nameOverride = separator
-	} else if prefix != "" && strings.HasPrefix(baseName, prefix) {
-		nameOverride = strings.TrimPrefix(baseName, prefix)
+	} else if prefix != "" && hasPathPrefix(baseName, prefix) {
+		nameOverride = trimPathPrefix(baseName, prefix)
 	}
 
 	return &prefixFile{
